@@ -114,7 +114,7 @@ Ltac step_rq H Hg W :=
   try match goal with H : ?q' = (if _ =? _ then _ else _) |- _ => subst q' end;
   try match type of Hg with context [if ?a =? ?b then _ else _] => destruct (a =? b) eqn:?E end;
   try match goal with H : (_ =? _) = true |- _ => apply Nat.eqb_eq in H; subst end;
-  try match goal with H2 : getq (vmark _) _ = Some _ |- _ => gq H2 end;
+  try match goal with H2 : getq (vmark _ _) _ = Some _ |- _ => gq H2 end;
   lazymatch type of Hg with
   | getq (mkSt _ (arrive_R _ _ _ _) _ _ _ _ _ _) _ = Some _ =>
       let q1 := fresh "q1" in let Hq := fresh "Hq" in let Ho := fresh "Ho" in
